@@ -30,6 +30,8 @@ def main():
             verdict = "**not caught**"
             if m.get("note_after_fix"):
                 verdict = "n/a after fix (see note)"
+            elif m.get("lead_note"):
+                verdict = "**not caught** — " + short(m["lead_note"], 160)
             elif c.get("check_exit") == 2:
                 verdict = "**not decided** (harness ERROR)"
             missed += 1
